@@ -35,7 +35,7 @@ FLOORS = {'quick': {'linked': 150, 'how:parsed': 100, 'how:built': 100, 'edit:re
 EDITS = ['rename_table', 'rename_schema', 'rename_alias', 'rename_column', 'rename_enum', 'rename_enum_schema', 'rename_item',
          'type_plain', 'type_enum', 'flags', 'default', 'table_note', 'column_note', 'ref_kind', 'ref_inline', 'ref_name',
          'ref_actions', 'add_column', 'add_index', 'add_item', 'remove_index', 'comment', 'header_color', 'index_opts',
-         'group_edit', 'project_edit']
+         'group_edit', 'project_edit', 'dup_index', 'dup_remove_index', 'column_comment', 'ref_comment', 'enum_comment', 'index_comment']
 NEW_NAMES = ['renamed', 'new name', 'Z', 'ünï', 'x{0}', 'order', 'note']
 
 
@@ -74,7 +74,8 @@ def apply_edit(s: ASchema, db, e, step):
     kind, a, b, c = e
     nm = NEW_NAMES[c % len(NEW_NAMES)] + f'_{step}'
     if kind in ('rename_table', 'rename_schema', 'rename_alias', 'table_note', 'add_column', 'add_index', 'remove_index',
-                'header_color', 'rename_column', 'type_plain', 'type_enum', 'flags', 'default', 'column_note', 'comment', 'index_opts'):
+                'header_color', 'rename_column', 'type_plain', 'type_enum', 'flags', 'default', 'column_note', 'comment', 'index_opts',
+                'dup_index', 'dup_remove_index', 'column_comment', 'index_comment'):
         if not s.tables:
             return None
         ti = a % len(s.tables)
@@ -141,11 +142,45 @@ def apply_edit(s: ASchema, db, e, step):
             if not t.indexes:
                 return None
             i = b % len(t.indexes)
+            # delete-by-object selects by equality: it is unambiguous only if no earlier index is equal
+            earlier_twin = any(t.indexes[j] == t.indexes[i] for j in range(i))
             del t.indexes[i]
-            if c % 2:
+            if c % 2 or earlier_twin:
                 lt.delete_index(i)
             else:
                 lt.delete_index(lt.indexes[i])
+            return kind
+        if kind == 'dup_index':
+            # an index equal to an existing one (allowed): later removals must hit the right object
+            if not t.indexes:
+                return None
+            i = b % len(t.indexes)
+            t.indexes.append(copy.deepcopy(t.indexes[i]))
+            src = lt.indexes[i]
+            lt.add_index(Index(list(src.subjects), name=src.name, unique=src.unique, type=src.type, pk=src.pk,
+                               note=src.note.text or None, comment=src.comment))
+            return kind
+        if kind == 'dup_remove_index':
+            # add an equal duplicate of an index, then remove the LATER of the two (by object or by position):
+            # the earlier one must stay, attached
+            if not t.indexes:
+                return None
+            i = len(t.indexes) - 1      # the twins are adjacent: whichever of the two the library removes, the content is the same
+            src = lt.indexes[i]
+            dup = Index(list(src.subjects), name=src.name, unique=src.unique, type=src.type, pk=src.pk,
+                        note=src.note.text or None, comment=src.comment)
+            lt.add_index(dup)
+            if c % 2:
+                lt.delete_index(dup)
+            else:
+                lt.delete_index(len(lt.indexes) - 1)
+            return kind
+        if kind == 'index_comment':
+            if not t.indexes:
+                return None
+            i = b % len(t.indexes)
+            t.indexes[i].comment = None if c % 3 == 0 else f'index comment {step}'
+            lt.indexes[i].comment = t.indexes[i].comment
             return kind
         if kind == 'index_opts':
             if not t.indexes:
@@ -201,6 +236,10 @@ def apply_edit(s: ASchema, db, e, step):
             col.default = d
             lc.default = build_default(d)
             return kind
+        if kind == 'column_comment':
+            col.comment = None if c % 3 == 0 else f'column comment {step}'
+            lc.comment = col.comment
+            return kind
         if kind == 'column_note':
             txt = None if c % 4 == 0 else f'col note {step}'
             col.note = txt
@@ -237,6 +276,25 @@ def apply_edit(s: ASchema, db, e, step):
             en.items.append(AEnumItem(name, note=f'n{step}' if c % 2 else None))
             le.add_item(EnumItem(name, note=f'n{step}' if c % 2 else None) if c % 2 else name)
             return kind
+    if kind == 'enum_comment':
+        if not s.enums:
+            return None
+        ei = a % len(s.enums)
+        s.enums[ei].comment = None if c % 3 == 0 else f'enum comment {step}'
+        db.enums[ei].comment = s.enums[ei].comment
+        if s.enums[ei].items:
+            ii = b % len(s.enums[ei].items)
+            s.enums[ei].items[ii].comment = f'item comment {step}' if c % 2 else None
+            db.enums[ei].items[ii].comment = s.enums[ei].items[ii].comment
+        return kind
+    if kind == 'ref_comment':
+        if not s.refs:
+            return None
+        ri = a % len(s.refs)
+        # two references that differ only in their comment are distinct for the library: keep the edited one unique
+        s.refs[ri].comment = None if c % 3 == 0 else f'ref comment {step} #{ri}'
+        db.refs[ri].comment = s.refs[ri].comment
+        return kind
     if kind in ('ref_kind', 'ref_inline', 'ref_name', 'ref_actions'):
         if not s.refs:
             return None
